@@ -112,7 +112,9 @@ def run_hist(spec, res: Result):
     cases = []
     for (pfx, op, b2) in enc.shard_heads(spec):
         fl = r.choice(("dist", "dist", "random", "boundary"))
-        case = states.build_case(r, pfx, op, b2, fl, small_payload=(fl == "dist"))
+        # one case in eight runs a counted instruction with I = 0 (the loop body is skipped / runs 65536 times: either way
+        # whatever the instruction leaves in scratch state must not leak into the next one)
+        case = states.build_case(r, pfx, op, b2, fl, small_payload=(fl == "dist"), icount=0 if r.random() < 0.125 else None)
         if case is None:
             continue
         cases.append(case)
